@@ -45,6 +45,31 @@ def expected_limits(case):
     return out
 
 
+def expected_costs(case):
+    """independent statement of 'the price in force = the cost of the latest operator signal that carries one' (latest by
+    effect step, then start time, then arrival): per connector one cost dict per step"""
+    scn = case["scenario"]
+    t0 = fdt(scn["scenario"]["start_time"])
+    dt = datetime.timedelta(minutes=scn["scenario"]["interval"])
+    n = scn["scenario"]["n_intervals"]
+    out = {}
+    for gid, gc in scn["components"]["grid_connectors"].items():
+        evs = []
+        for idx, e in enumerate(scn["events"].get("grid_operator_signals", [])):
+            if e["grid_connector_id"] != gid or e.get("cost") is None:
+                continue
+            start, sig = fdt(e["start_time"]), fdt(e["signal_time"])
+            bucket = max(0, ceil_div(sig - t0, dt))
+            evs.append((max(bucket, ceil_div(start - t0, dt)), start, bucket, idx, e["cost"]))
+        costs, cur = [], gc.get("cost")
+        for t in range(n):
+            for _, _, _, _, c in sorted((e for e in evs if e[0] == t), key=lambda e: e[:4]):
+                cur = c
+            costs.append(cur)
+        out[gid] = costs
+    return out
+
+
 def classify(case, r, t, gid):
     """narrow trigger description of a limit break at step t (used in violation keys)"""
     tr = r["trace"][t]["post_strategy"]
@@ -123,7 +148,9 @@ def check_c04(case, r):
                     d = 0 if load > 0 else 1
                     who = "none" if max(am["cs"][d], am["bat"][d]) <= EPS else (
                         "vehicles" if am["cs"][d] >= am["bat"][d] else "batteries")
-                    if strat == "peak_load_window":
+                    opt = case.get("options") or {}
+                    if strat == "peak_load_window" or (strat == "distributed" and "peak_load_window" in (
+                            opt.get("strategy_deps"), opt.get("strategy_opps"))):
                         # after the repairs PLW1/PLW2 one mechanism is left: the level accounted for the current step
                         # is re-simulated from its own average, which is not the identity at NEGATIVE SoC (B14)
                         pe = r["trace"][t].get("post_events")
